@@ -387,7 +387,7 @@ def space(kind, tier, seed=0):
         # operators a container / a round / a queue takes; length follows the constants of the scheduler sources
         from .. import scale as _scale
         algo = kind[10:]
-        L, info = _scale.size(["scheduler/", "workload/runtime_status", "workload/pipeline", "utils/", "executor/"], 40 if q else 120, 6000)
+        L, info = _scale.size(["scheduler/", "workload/runtime_status", "workload/pipeline", "utils/", "executor/"], 40 if q else 120, 3000 if q else 6000)
         SHAPES[f"chain{L}"] = [[]] + [[i] for i in range(L - 1)]
         cfgs = {"naive": [(2, 2, 8, True, False), (2, 2, 8, False, False)], "priority": [(1, 10, 40, True, False), (1, 10, 40, False, False)],
                 "priority-pool": [(2, 10, 40, True, False)], "overbook": [(2, 2, 8, True, True)], "starter": [(2, 2, 8, False, False)]}[algo]
@@ -403,7 +403,7 @@ def space(kind, tier, seed=0):
         # executor / lifecycle sources, a small default otherwise.
         from .. import scale as _scale
         algo = kind[6:]
-        n, info = _scale.size(["scheduler/", "executor/", "workload/runtime_status", "workload/pipeline", "utils/"], 160 if q else 400, 20000)
+        n, info = _scale.size(["scheduler/", "executor/", "workload/runtime_status", "workload/pipeline", "utils/"], 160 if q else 400, 9000 if q else 20000)
         cfgs = {"naive": [(1, 2, 8, False, False), (2, 2, 8, True, False)], "priority": [(1, 4, 40, True, False), (1, 4, 40, False, False)],
                 "priority-pool": [(2, 6, 60, True, False)], "overbook": [(1, 4, 8, True, True)], "starter": [(1, 2, 8, False, False)]}[algo]
         for cfg in cfgs:
